@@ -49,6 +49,35 @@ theorem left_operand_needs_no_parentheses (o : BOp) (l : Query) (item : Bool) (m
     followQ l (some (opTok o)) = true :=
   followQ_left o l item m hl hc hm
 
+/-- THE IMAGE DIRECTION FOR OPERATORS: whatever token list it is given, a query the reference parser
+    returns has the operator shape `precOK` — every operand that the printer writes without
+    parentheses has a root binding at least as tightly as its position demands, left operands are
+    closed, `def` / `label` / `as` sit at pipe positions (the operator part of `Printable`; terms,
+    names and string values are not inspected by `precOK`).  So the parser never builds an operator
+    tree for which the printer's missing parentheses matter.  Proved by induction on the recursion
+    budget with the loop invariant "the left operand parsed so far may be extended by the operator
+    that follows" (`LhsInv`). -/
+theorem parser_image_has_operator_shape (f : Nat) (ts : List Tok) (q : Query)
+    (h : refParseQ f ts = some q) : precOK true 1 q = true :=
+  refParse_precOK f ts q h
+
+/-- THE IMAGE OF THE REFERENCE PARSER IS PRINTABLE — all of it: on every token list the lexer can
+    have produced (`goodB`, decidable: every token well-formed — identifiers are identifiers,
+    numbers scan as numbers, string values re-decode — and the tokens of interpolated strings come
+    in lexer order) every query the reference parser returns satisfies `Printable`: operator
+    shape, `def` / `label` / `as` positions, no suffix on a sign or `try`, no dangling `catch`,
+    names, keys, patterns, interpolation pieces.  By induction on the recursion budget over all 18
+    parser functions, with what a successful parse leaves behind as invariants: the suffix loop
+    stopped (`SufStop`), no `catch` after an open `try` (`CatchStop`), the operator loop stopped
+    (`LoopStop`), nothing an open binding could still absorb (`OpenStop`). -/
+theorem parser_image_printable (f : Nat) (ts : List Tok) (q : Query) (hg : goodB ts = true)
+    (h : refParseQ f ts = some q) : Printable q = true :=
+  refParse_printable f ts q (good_of_goodB ts hg) h
+
+/-- `Printable` contains that shape -/
+theorem printable_has_operator_shape (q : Query) (h : Printable q = true) : precOK true 1 q = true :=
+  precOK_of_okQ q true 1 h
+
 /-! ### 2. lex_respace: the printer's separators and the lexer's maximal munch -/
 
 /-- ONE TOKEN.  `Lex` applied to the spelling of a well-formed token `t` followed by bytes `fol`
@@ -80,6 +109,50 @@ theorem lex_printed_tokens_from (items : List Item) (last : Option UInt8) (inStr
     tkz f (render last items) inStr stk = toks items :=
   lex_items items last inStr stk f h hf
 
+/-- LEX_RESPACE FOR ARBITRARY GAPS: a text given as tokens, each preceded by a gap of white space
+    and `#` comments (`IsGap`; comment bodies without `\\` and CR), and a trailing gap.  Under the
+    adjacency condition `GapsOK` — no gap inside an interpolated string literal, every token
+    well-formed and `stops` before the text that follows it — the tokenizer returns exactly the
+    tokens; so any two spacings of one token sequence that satisfy it have the same tokens. -/
+theorem lex_respace (tw1 tw2 : Bytes) (l1 l2 : List (Bytes × Tok)) (hsame : l1.map (·.2) = l2.map (·.2))
+    (h1 : GapsOK tw1 false [] l1) (h2 : GapsOK tw2 false [] l2) :
+    tokensOf (joinG tw1 l1) = tokensOf (joinG tw2 l2) :=
+  lex_respace_gaps tw1 tw2 l1 l2 hsame h1 h2
+
+/-- the tokens of a text given as tokens with gaps -/
+theorem lex_tokens_with_gaps (tw : Bytes) (l : List (Bytes × Tok)) (h : GapsOK tw false [] l) :
+    tokensOf (joinG tw l) = l.map (·.2) :=
+  tokensOf_gaps_comments tw l h
+
+/-- the same with the DECIDABLE condition `gapsOK` for white-space gaps -/
+theorem lex_tokens_with_white_gaps (tw : Bytes) (l : List (Bytes × Tok)) (h : gapsOK tw false [] l = true) :
+    tokensOf (joinG tw l) = l.map (·.2) :=
+  tokensOf_gaps tw l h
+
+/-- A NON-EMPTY WHITE GAP ALWAYS SEPARATES: the condition `stops` can only fail where a token is
+    directly followed by the next one — inserting white space is always allowed, deleting it is
+    allowed exactly where `stops` holds of the glued text. -/
+theorem white_gap_separates (t : Tok) (w : UInt8) (X : Bytes) (hw : isWhite w = true) (hwf : t.wf = true)
+    (hn : t.inStrTok = false) (hs : t ≠ .strStart) : stops t (w :: X) = true :=
+  stops_white t w X hw hwf hn hs
+
+/-- A COMMENT UP TO ITS LINE FEED IS A GAP -/
+theorem comment_is_gap (g X : Bytes) (hg : IsGap g) : lx (g ++ X) false = lx X false :=
+  lx_gap g X hg
+
+/-- deleting white space where `stops` fails DOES change the tokens: `1 .a` / `1.a`, `. .a` / `..a`,
+    `a :: b`-like gluing `a: :b`, `- =` … (here: `1 .a` has the tokens number, index; `1.a` is an
+    invalid token) -/
+theorem glue_counterexample :
+    tokensOf [49, 32, 46, 97] = [.number [49], .index [97]] ∧ stops (.number [49]) [46, 97] = false ∧
+    tokensOf [49, 46, 97] ≠ [.number [49], .index [97]] := by
+  decide +kernel
+
+/-- non-vacuity of `lex_respace`: `1 as $x|2` with a comment, tabs and a CR LF -/
+example : gapsOK [10] false []
+    [([], .number [49]), ([9, 9], .kw .as_), ([], .var [36, 120]), ([13, 10], .ch 124), ([], .number [50])] = true := by
+  decide +kernel
+
 /-- THE PRINTER'S OUTPUT SATISFIES THE ADJACENCY CONDITION, for every Printable query: no two
     tokens `writeTo` writes next to each other merge under maximal munch (`f(`, `.[`, `-1`, `1,`,
     `a:b` inside a slice, `"x".a`, `\(`…`)` …), the `soft` space of `Index.writeTo` separates a `.`
@@ -98,6 +171,14 @@ theorem print_parse_roundtrip_ref (q : Query) (hp : Printable q = true) :
     ∃ F, ∀ f, F ≤ f → refParseQ f (tokensOf (printQ q)) = some q :=
   roundtrip_printable q hp
 
+/-- FOR EVERY SOURCE THE REFERENCE PARSER ACCEPTS: if `src` lexes to well-formed tokens and parses
+    to `q`, then printing `q`, lexing and parsing again gives `q` — the property as stated, for the
+    reference parser, with the image characterised (`parser_image_printable`) rather than assumed. -/
+theorem print_parse_roundtrip_of_accepted (src : Bytes) (f : Nat) (q : Query)
+    (hg : goodB (tokensOf src) = true) (h : refParseQ f (tokensOf src) = some q) :
+    ∃ F, ∀ f', F ≤ f' → refParseQ f' (tokensOf (printQ q)) = some q :=
+  roundtrip_of_accepted src f q hg h
+
 /-- THE HYPOTHESIS KEPT EXPLICIT: the shipped LALR tables with the semantic actions accept what
     the reference parser accepts and build the same AST (compared as the canonical dump the
     `parse` / `refparse` streams compare).  Validated on every run by stream `refparse`; for
@@ -113,6 +194,25 @@ theorem print_parse_roundtrip_tables (hyp : RefAgreesWithTables) (q : Query) (hp
     ∃ t s v, Parse.parse (printQ q) = .accept t s ∧ Parse.sem t = .ok v ∧
       Parse.dump v.val = Parse.dump (astProgram { body := .query q }) :=
   hyp (printQ q) q (roundtrip_printable q hp)
+
+/-- THE SAME FOR WHOLE PROGRAMS: `module {…};`, `import "p" as a {…};`, `include "p";`, then
+    function definitions only or a query.  `PrintableProgram` adds to `Printable`: metadata are
+    constant objects with identifier / keyword / string keys, import aliases are identifiers or
+    `$variables`, paths are decoded strings. -/
+theorem print_parse_roundtrip_program_ref (p : Program) (hp : PrintableProgram p = true) :
+    ∃ F, ∀ f, F ≤ f → refParseF f (printProgram p) = some p :=
+  roundtrip_program p hp
+
+/-- the hypothesis for whole programs (what stream `refparse` compares on every source) -/
+def RefAgreesWithTablesProgram : Prop :=
+  ∀ (src : Bytes) (p : Program), (∃ F, ∀ f, F ≤ f → refParseF f src = some p) →
+    ∃ t s v, Parse.parse src = .accept t s ∧ Parse.sem t = .ok v ∧ Parse.dump v.val = Parse.dump (astProgram p)
+
+theorem print_parse_roundtrip_program_tables (hyp : RefAgreesWithTablesProgram) (p : Program)
+    (hp : PrintableProgram p = true) :
+    ∃ t s v, Parse.parse (printProgram p) = .accept t s ∧ Parse.sem t = .ok v ∧
+      Parse.dump v.val = Parse.dump (astProgram p) :=
+  hyp (printProgram p) p (roundtrip_program p hp)
 
 /-! ### 4. the side condition is needed: ASTs outside the parser's image do not round-trip -/
 
@@ -205,10 +305,26 @@ example : refParseQ 60 (tokensOf (printQ qE)) = some qE := by rfl
 example : (refParseQ 80 (tokensOf (printQ qF))).map (fun q => toks (itemsQ q)) = some (toks (itemsQ qF)) := by
   decide +kernel
 
+/-- the hypotheses of `print_parse_roundtrip_of_accepted` on concrete sources -/
+example : goodB (tokensOf /- "a\(1 + 2)b" | . as [$x, {k: $y}] ?// $z | -.a."b"[1:]? -/
+    [34, 97, 92, 40, 49, 43, 50, 41, 98, 34, 32, 124, 32, 46, 32, 97, 115, 32, 91, 36, 120, 44, 32, 123, 107, 58, 32,
+     36, 121, 125, 93, 32, 63, 47, 47, 32, 36, 122, 32, 124, 32, 45, 46, 97, 46, 34, 98, 34, 91, 49, 58, 93, 63]) = true := by
+  decide +kernel
+
 /-- differently spaced sources of the same queries: `. "a"`, `.a=.b//1`, `1 as$x|2` -/
 example : refParseQ 60 (tokensOf /- . "a" -/ [46, 32, 34, 97, 34]) = some qD := by rfl
 example : refParseQ 60 (tokensOf /- .a=.b//1 -/ [46, 97, 61, 46, 98, 47, 47, 49]) = some qA := by rfl
 example : refParseQ 60 (tokensOf /- 1 as$x|2 -/ [49, 32, 97, 115, 36, 120, 124, 50]) = some qB := by rfl
+
+/-- `module {a: [1, "x"]}; import "m" as $x {if: null}; include "n"; def f($a; g): g; def h: f(1; .);` -/
+def pG : Program :=
+  { md := some [.mk false [97] (.arr [.number [49], .str [120]])],
+    imports := [.import_ [109] [36, 120] (some [.mk false [105, 102] .null]), .include_ [110] none],
+    body := .defs [.mk [102] [[36, 97], [103]] (.term (.func [103] [])),
+                   .mk [104] [] (.term (.func [102] [num 49, .term .identity]))] }
+example : PrintableProgram pG = true := by decide +kernel
+example : (refParseF 200 (printProgram pG)).map (fun p => toks (itemsProgram p)) = some (toks (itemsProgram pG)) := by
+  decide +kernel
 
 /-- the instance of `RefAgreesWithTables` at these printed texts, evaluated on the shipped tables -/
 def agreesAt (q : Query) : Bool :=
